@@ -109,14 +109,11 @@ impl Table {
 
     pub fn init_column_names(&self, column_names: HashSet<String>) {
         let mut cns = self.column_names.write().unwrap();
-        assert!(
-            cns.is_none() || (*cns).as_ref() == Some(&column_names),
-            "Inconsistent concurrent column name initialization for table {} ({:?} vs {:?})",
-            self.name,
-            cns.as_ref().unwrap(),
-            column_names,
-        );
-        *cns = Some(column_names);
+        // Another thread may have initialized the names in the meantime and already added the
+        // new columns of its batch: its set is the more recent one.
+        if cns.is_none() {
+            *cns = Some(column_names);
+        }
     }
 
     pub fn snapshot_parts(&self, parts: &[PartitionID]) -> Vec<Arc<Partition>> {
